@@ -644,6 +644,65 @@ func consts() {
 
 var _ = bytes.Compare
 
+// integer detection (C03): which attribute values get an entry in the integer index.
+// One object per value; "N >= -(2^256-1)" with attrs [N] returns exactly the indexed ones
+// together with the decimal form the shard reports.
+func intDetect() {
+	vals := append(append([]string{}, intVals...), oddVals...)
+	for _, base := range []string{"5", "0", "12", "007", max256, max256[:77] + "6", "1" + max256, "99999999999999999999"} {
+		for _, pre := range []string{"", "+", "-", " ", "++", "-+", "+-", "--", "0", "-0", "+0", "\t", "0x", "_"} {
+			for _, suf := range []string{"", " ", "a", ".0", "e3", "_", "\n", "+"} {
+				vals = append(vals, pre+base+suf)
+			}
+		}
+	}
+	vals = append(vals, "\u0665", "\uff15", "1\u00a0", "\u0661\u0662") // non-ASCII digits / spaces
+	seen := map[string]bool{}
+	dir, err := os.MkdirTemp("", "verif-search-int-")
+	must(err)
+	defer os.RemoveAll(dir)
+	db := openDB(dir, "meta.db", &epochState{0})
+	defer db.Close()
+	type rec struct {
+		id  string
+		val string
+	}
+	var recs []rec
+	n := 0
+	for _, v := range vals {
+		if seen[v] || v == "" || strings.ContainsRune(v, 0) {
+			continue
+		}
+		seen[v] = true
+		n++
+		var id [32]byte
+		id[0], id[30], id[31] = 0x7e, byte(n>>8), byte(n)
+		var o object.Object
+		o.SetContainerID(cnrMain)
+		o.SetID(id)
+		o.SetOwner(owners[0])
+		o.SetPayloadChecksum(checksum.NewSHA256(sums[0]))
+		o.SetAttributes(object.NewAttribute("N", v))
+		must(db.Put(&o))
+		recs = append(recs, rec{hx(id[:]), v})
+	}
+	var fs object.SearchFilters
+	fs.AddFilter("N", "-"+max256, object.MatchNumGE)
+	ofs, cur, err := objectcore.PreprocessSearchQuery(fs, []string{"N"}, "")
+	must(err)
+	res, _, err := db.Search(cnrMain, ofs, []string{"N"}, cur, 1000)
+	must(err)
+	got := map[string]string{}
+	for _, r := range res {
+		got[hx(r.ID[:])] = r.Attributes[0]
+	}
+	enc := json.NewEncoder(os.Stdout)
+	for _, r := range recs {
+		t, ok := got[r.id]
+		_ = enc.Encode(map[string]any{"k": "int", "val": hx([]byte(r.val)), "indexed": ok, "text": hx([]byte(t))})
+	}
+}
+
 func main() {
 	seed, _ := strconv.ParseUint(os.Getenv("VERIF_SEED"), 10, 64)
 	rnd = &rng{s: seed*0x9e3779b97f4a7c15 + 3}
@@ -660,6 +719,12 @@ func main() {
 		gen(a, b)
 	case "merge", "mergegen":
 		mergeMain(os.Args[1:])
+	case "enggen":
+		a, _ := strconv.Atoi(os.Args[2])
+		b, _ := strconv.Atoi(os.Args[3])
+		engGen(a, b)
+	case "intdetect":
+		intDetect()
 	default:
 		fmt.Fprintln(os.Stderr, "unknown command")
 		os.Exit(2)
